@@ -317,6 +317,9 @@ def run(ctx):
     from props import glue
     glue.bytes_dirfd_hidden(ctx)
     glue.pathlike_names(ctx)
+    from props import clauses
+    clauses.windows_drive_bytes(ctx)
+    clauses.bytes_high_and_nonascii_dirs(ctx)
     return ctx.finish(RULE)
 
 
